@@ -9,13 +9,10 @@ the open entries of KNOWN_FINDINGS.json by vlib.run_pipeline; full text in FINDI
               the results are the zero / empty results.  The Lean model returns the zero results and is not compared
               on this class.
 
- c03-edge:F4  SparseMatrixBCSR::extract_diag with non-square blocks: the scalar matrix is not square, the member only
-              compares the block counts; BlockHeight > BlockWidth reads m[i][i] outside the block (SIGSEGV at Q),
-              BlockHeight < BlockWidth returns block-diagonal entries that are not a main diagonal.  Oracle: must be
-              reported (abort).  The model is compared for bh < bw only.
-
-Formerly c03-edge:F1 (BCSR row_norm2 took the square root per block) and c03-edge:F2 (CSR scaled row_norm2sqr used
-scal[row]) are fixed in /repo (371e809c8, 43103d013); their input classes (several blocks per row; general scal with
+Formerly c03-edge:F1 (BCSR row_norm2 took the square root per block), c03-edge:F2 (CSR scaled row_norm2sqr used
+scal[row]) and c03-edge:F4 (BCSR extract_diag accepted non-square blocks and read m[i][i] outside the block) are fixed
+in /repo (371e809c8, 43103d013, 214562810); the non-square-block extract_diag inputs stay in the edge stream as ordinary
+"must be reported" cases, compared with the model; their input classes (several blocks per row; general scal with
 rows <, =, > cols) are part of the regular stream and their original inputs are in the corpus.
 """
 import json
@@ -814,8 +811,6 @@ def edge_class(case):
         return None
     if any(m.nb == 0 for m in c.mats.values()):
         return "F3"
-    if c.fmt == "bcsr" and c.op == "diag" and c.bh != c.bw:
-        return "F4"
     return None
 
 
@@ -830,9 +825,6 @@ def signature(case, out, why):
 def model_filter(case):
     # on entry-free operands the model returns the zero results (the implementation crashes: c03-edge:F3)
     k = edge_class(case)
-    if k == "F4":
-        # bh < bw: the model reproduces the returned block-diagonal values; bh > bw: the real code reads outside the block
-        return Case(case).bh < Case(case).bw
     return k != "F3"
 
 
@@ -843,7 +835,7 @@ def empty_mat(rows, cols, bh=1, bw=1, blocked=False):
 def gen_edge_case(rng, sizes):
     it = rng.choice([32, 64])
     if rng.random() < 0.12:
-        # F4: extract_diag with non-square blocks
+        # extract_diag with non-square blocks (formerly c03-edge:F4, fixed): must be reported
         bh, bw = rng.choice([(2, 3), (3, 2)])
         n = rdim(rng, sizes)
         A = gen_mat(rng, n, n, bh, bw, True, style=rng.choice(["diag", "diagplus", "full", "sparse"]))
@@ -958,7 +950,6 @@ def main(argv):
         "Index modelled as unbounded Nat (no 32/64-bit overflow at the sizes generated)",
         "CSR/BCSR operands have strictly increasing column indices per row (as every FEAT assembly produces)",
         "square roots: the deterministic q_sqrt of exact_q.hpp / Proto.qsqrt (float conformance T3 not run)",
-        "known findings (stream `edge`, judged on every run, FINDINGS_C03.md): c03-edge:F3 entry-free operands, "
-        "c03-edge:F4 BCSR extract_diag with non-square blocks"],
+        "known findings (stream `edge`, judged on every run, FINDINGS_C03.md): c03-edge:F3 entry-free operands"],
         extra_cov={"rule": stats_rule})
     return rc
